@@ -174,7 +174,151 @@ pub fn run_filtered(ctx: &Ctx) {
     ctx.shrink_iters.store(1200, std::sync::atomic::Ordering::Relaxed);
 }
 
+// ---------------------------------------------------------------------------------------------
+// parallel mode as a user sets it up: with_config(..) + with_filter + init_pool(sender) + analyze_pcap(..)
+// ---------------------------------------------------------------------------------------------
+/// collect everything the workers deliver until every sender is gone (the analyzer, and with it the pool, is dropped first);
+/// None = the channel did not close within the cap (reported as inconclusive, never as a violation)
+fn drain_closed<T>(rx: std::sync::mpsc::Receiver<T>, cap_s: u64) -> Option<Vec<T>> {
+    let end = std::time::Instant::now() + std::time::Duration::from_secs(cap_s);
+    let mut out = vec![];
+    loop {
+        match rx.recv_timeout(std::time::Duration::from_millis(200)) {
+            Ok(v) => out.push(v),
+            Err(std::sync::mpsc::RecvTimeoutError::Disconnected) => return Some(out),
+            Err(std::sync::mpsc::RecvTimeoutError::Timeout) => {
+                crate::engine::watchdog_touch();
+                if std::time::Instant::now() > end {
+                    return None;
+                }
+            }
+        }
+    }
+}
+
+/// results of the analyzer's own parallel mode on a capture file; Ok(None) = inconclusive (result channel never closed)
+pub fn api_parallel(kind: PoolKind, frames: &[Vec<u8>], max_conn: usize, workers: usize, queue: usize, batch: usize, timeout_ms: u64) -> Result<Option<Vec<(String, String)>>, String> {
+    let path = drive::scratch_file("c10api");
+    let refs: Vec<&[u8]> = frames.iter().map(|f| f.as_slice()).collect();
+    drive::write_pcap(&path, &refs);
+    let p = path.to_string_lossy().to_string();
+    let out = match kind {
+        PoolKind::Tcp => {
+            let (tx, rx) = std::sync::mpsc::channel();
+            let mut a = huginn_net_tcp::HuginnNetTcp::with_config(Some(crate::props::c15::arc_db()), max_conn, workers, queue, batch, timeout_ms).map_err(|e| e.to_string())?;
+            a.init_pool(tx.clone()).map_err(|e| e.to_string())?;
+            a.analyze_pcap(&p, tx, None).map_err(|e| e.to_string())?;
+            drop(a);
+            drain_closed(rx, 20).map(|v| v.iter().flat_map(drive::tcp_keyed).collect())
+        }
+        PoolKind::Http => {
+            let (tx, rx) = std::sync::mpsc::channel();
+            let mut a = huginn_net_http::HuginnNetHttp::with_config(Some(crate::props::c15::arc_db()), max_conn, workers, queue, batch, timeout_ms).map_err(|e| e.to_string())?;
+            a.init_pool(tx.clone()).map_err(|e| e.to_string())?;
+            a.analyze_pcap(&p, tx, None).map_err(|e| e.to_string())?;
+            drop(a);
+            drain_closed(rx, 20).map(|v| v.iter().flat_map(drive::http_keyed).collect())
+        }
+        PoolKind::Tls => {
+            let (tx, rx) = std::sync::mpsc::channel();
+            let mut a = huginn_net_tls::HuginnNetTls::with_config_and_max_connections(workers, queue, batch, timeout_ms, max_conn);
+            a.init_pool(tx.clone()).map_err(|e| e.to_string())?;
+            a.analyze_pcap(&p, tx, None).map_err(|e| e.to_string())?;
+            drop(a);
+            drain_closed(rx, 20).map(|v| v.iter().flat_map(drive::tls_keyed).collect())
+        }
+    };
+    let _ = std::fs::remove_file(&path);
+    Ok(out)
+}
+
+pub fn check_api(c: &ParCase, st: &mut Stats) -> Result<(), Fail> {
+    let kind = [PoolKind::Tcp, PoolKind::Http, PoolKind::Tls][(c.kind % 3) as usize];
+    let pk = c.trace.interleaved();
+    let frames: Vec<Vec<u8>> = pk.iter().map(|p| p.frame.clone()).collect();
+    let mut clock: HashMap<u32, u64> = HashMap::new();
+    for p in &pk {
+        if let Some(v) = p.tsval {
+            clock.insert(v, p.at);
+        }
+    }
+    let workers = 1 + (c.workers % 8) as usize;
+    let n_conn = c.trace.conns.len().max(1);
+    // a capacity that differs from every other number of the configuration (a transposed argument shows), and holds the trace
+    let max_conn = if kind == PoolKind::Http { n_conn } else { 4 * n_conn };
+    let queue = frames.len() + 16 + 2 * max_conn;
+    let batch = 1 + (c.batch % 64) as usize;
+    let timeout_ms = 1 + (c.timeout_ms % 20) as u64;
+    let reference = sequential(kind, &pk);
+    let _guard = crate::pool::POOL_LOCK.lock().unwrap_or_else(|e| e.into_inner());
+    huginn_net_tcp::verif_hooks::set_global_clock_table(Some(clock));
+    let panics_before = crate::engine::WORKER_PANICS.load(std::sync::atomic::Ordering::SeqCst);
+    let got = api_parallel(kind, &frames, max_conn, workers, queue, batch, timeout_ms);
+    huginn_net_tcp::verif_hooks::set_global_clock_table(None);
+    drop(_guard);
+    if crate::engine::WORKER_PANICS.load(std::sync::atomic::Ordering::SeqCst) != panics_before {
+        return Err(fail!(format!("{:?}:api-parallel:worker-panic", kind), "a worker thread panicked"));
+    }
+    let got = match got.map_err(|e| fail!(format!("{:?}:api-parallel:setup", kind), "{e}"))? {
+        Some(g) => g,
+        None => {
+            st.class("result-channel-not-closed(inconclusive)");
+            st.discards += 1;
+            return Ok(());
+        }
+    };
+    if workers >= 2 && reference.len() >= 2 {
+        st.nontrivial(c);
+    }
+    st.class(&format!("{:?}", kind));
+    let mut a: Vec<&(String, String)> = reference.iter().collect();
+    let mut b: Vec<&(String, String)> = got.iter().collect();
+    a.sort();
+    b.sort();
+    if a != b {
+        let missing: Vec<&&(String, String)> = a.iter().filter(|x| !b.contains(x)).collect();
+        let extra: Vec<&&(String, String)> = b.iter().filter(|x| !a.contains(x)).collect();
+        let what = if !missing.is_empty() { "result-missing-in-parallel-mode" } else { "extra-or-different-result-in-parallel-mode" };
+        return Err(fail!(
+            format!("{:?}:api-parallel:{what}", kind),
+            "with_config(max_connections {max_conn}, workers {workers}, queue {queue}, batch {batch}, timeout {timeout_ms}) + init_pool + analyze_pcap: sequential {} results, parallel mode {}\nmissing: {}\nextra:   {}",
+            a.len(),
+            b.len(),
+            truncate(&format!("{:?}", missing.first()), 500),
+            truncate(&format!("{:?}", extra.first()), 500)
+        ));
+    }
+    let (rm, pm) = (by_key(&reference), by_key(&got));
+    for (k, seq) in &rm {
+        if pm.get(k) != Some(seq) {
+            return Err(fail!(format!("{:?}:api-parallel:order-within-one-unit-changed", kind), "unit {k}"));
+        }
+    }
+    Ok(())
+}
+
+pub fn run_api(ctx: &Ctx) {
+    ctx.shrink_iters.store(15, std::sync::atomic::Ordering::Relaxed);
+    let n = ctx.tier.pick(1_500, 30_000);
+    ctx.run_prop(
+        "parallel-mode-api-vs-sequential",
+        "the trace generator of pool-vs-sequential through parallel mode as a user sets it up: HuginnNetTcp / HuginnNetHttp::with_config(db, max_connections, workers 1..8, queue, batch 1..64, timeout 1..20 ms) resp. HuginnNetTls::with_config_and_max_connections, init_pool(sender), analyze_pcap(generated capture file); every configuration number is different (capacity = what holds the trace's connections, queue larger than the trace) so that a transposed argument shows; results collected until the workers have closed the result channel; oracle: multiset and per-unit order of the sequential analyzer; non-trivial: >= 2 workers and >= 2 results",
+        n,
+        par_case,
+        |c: &ParCase, st: &mut Stats| {
+            st.sample(|| json!({"kind": c.kind % 3, "workers": 1 + c.workers % 8, "connections": c.trace.conns.len(), "packets": c.trace.interleaved().len()}));
+            check_api(c, st)
+        },
+    );
+    ctx.shrink_iters.store(1200, std::sync::atomic::Ordering::Relaxed);
+}
+
 pub fn replay(_ctx: &Ctx, _sub: &str, input: &serde_json::Value) -> Result<(), Fail> {
+    if _sub == "parallel-mode-api-vs-sequential" {
+        let c: ParCase = serde_json::from_value(input["value"].clone()).map_err(|e| fail!("bad-replay", "{e}"))?;
+        let mut st = Stats::new();
+        return check_api(&c, &mut st);
+    }
     if _sub == "pool-with-filter-vs-sequential" {
         let (c, k, w): (crate::props::c15::FiltCase, u8, usize) = serde_json::from_value(input["value"].clone()).map_err(|e| fail!("bad-replay", "{e}"))?;
         let mut st = Stats::new();
